@@ -40,6 +40,7 @@ CLASSICAL = {   # id -> (name, n, m, data)
     7: ("XORc", 2, 1, [1, 0, 0, 1, 0, 1, 1, 0]),
 }
 CLASSICAL_IDS = {v[0]: k for k, v in CLASSICAL.items()}
+CLASSICAL_IDS["discard"] = 8     # the effect the F31 repair post-processes discarded bits with (Tk.discard_id)
 SCALARS = {     # id -> (constructor, mixed)
     1: (lambda: qg.scalar(0.5), False),
     2: (lambda: qg.scalar(1j), False),
